@@ -269,8 +269,24 @@ def _replay_sharded(binary, shards, cfg_fn):
         env = core.go_env()
         env.update({"VERIF_PATHS": pf, "VERIF_OUT": out, "VERIF_SCRATCH": d, "VERIF_HSR_CONFIG": cfg_fn,
                     "VERIF_HSR_WORKERS": "2"})
-        p = subprocess.run([binary, "-test.run", "^TestVerifHSRaceReplay$", "-test.count=1", "-test.timeout", "7200s"],
-                           cwd=d, env=env, stdout=subprocess.PIPE, stderr=subprocess.STDOUT, text=True)
+        for attempt in (1, 2):
+            p = subprocess.run([binary, "-test.run", "^TestVerifHSRaceReplay$", "-test.count=1", "-test.timeout", "7200s"],
+                               cwd=d, env=env, stdout=subprocess.PIPE, stderr=subprocess.STDOUT, text=True)
+            if p.returncode == 0 and os.path.exists(out):
+                break
+            # a driver process that dies (seen once on a heavily loaded machine: fatal signal inside the test
+            # binary, no verdict involved) is started once more; the full output of the failed attempt is kept
+            try:
+                keep = os.path.join(os.environ.get("VERIF_REPLAY_DIR", os.path.join(core.VERIF, "replays")),
+                                    "hsrace-driver-death-%d.log" % os.getpid())
+                os.makedirs(os.path.dirname(keep), exist_ok=True)
+                open(keep, "a").write(p.stdout)
+                print("hsrace: driver process died (rc=%d), output kept in %s, attempt %d" % (p.returncode, keep, attempt),
+                      file=sys.stderr)
+            except OSError:
+                pass
+            if os.path.exists(out):
+                os.remove(out)
         if p.returncode != 0 or not os.path.exists(out):
             raise core.MachineryError("HSRace driver failed rc=%d:\n%s" % (p.returncode, p.stdout[-6000:]))
         return out
